@@ -127,6 +127,14 @@ func rawOp(w *world.World, o world.Op) func() {
 		}
 	case "HEALTH":
 		return func() { w.CC.VerifHealthCheck() }
+	case "OUTSTANDING":
+		return func() { w.CC.VerifInspectOutstanding() }
+	case "CLEAN_EXPIRED":
+		return func() {
+			if pc := w.CC.GetPartition(world.PartitionName); pc != nil {
+				pc.VerifCleanExpired()
+			}
+		}
 	case "REST":
 		// what the REST handlers read
 		return func() {
@@ -245,7 +253,11 @@ func c14Goroutine(k string) string {
 	case "QUOTA_PREEMPT":
 		return "quota preemption loop"
 	case "CLEAN_QUEUES":
-		return "partition manager"
+		return "partition manager (queue cleaner)"
+	case "CLEAN_EXPIRED":
+		return "partition manager (expired application cleaner)"
+	case "OUTSTANDING":
+		return "outstanding request inspector"
 	case "HEALTH":
 		return "health checker"
 	}
@@ -304,6 +316,15 @@ func c14ScenariosUnchecked() []c14Scenario {
 		mkQuotaPreempt("S18-quota-preemption-vs-schedule-release"),
 		mk("S19-node-registration-vs-schedule", []world.Op{op("NODE_ADD", "n1"), op("APP_ADD", "app1"), op("APP_ADD", "app2"), op("ASK", "a1"), op("ASK", "a2"), op("ASK", "b1")},
 			o("NODE_ADD", "n2"), o("SCHEDULE"), o("REST")),
+		mk("S20-outstanding-inspection-vs-release", []world.Op{op("NODE_ADD", "n2"), op("APP_ADD", "app1"), op("APP_ADD", "app2"), op("ASK", "a2"), op("SCHEDULE"), op("ASK", "a1"), op("ASK", "b1")},
+			o("OUTSTANDING"), []world.Op{op("RELEASE", "a1"), op("RELEASE", "b1")}, o("SCHEDULE")),
+		mkExpired("S21-expired-cleanup-vs-resubmission"),
+		mkHardGang("S22-hard-gang-timeout-vs-real-ask"),
+		mk("S23-drain-vs-schedule", setup, o("NODE_DRAIN", "n1"), o("SCHEDULE"), o("REST")),
+		mk("S24-application-removal-vs-placeholder-timeout", []world.Op{op("NODE_ADD", "n1"), op("APP_ADD", "gapp"), op("ASK", "p1"), op("SCHEDULE"), op("ASK", "r1")},
+			o("APP_REMOVE", "gapp"), o("TIMER_PH", "gapp"), o("SCHEDULE")),
+		mk("S25-queue-removal-vs-submission", []world.Op{op("NODE_ADD", "n1"), op("NODE_ADD", "n2")},
+			[]world.Op{{K: "CONFIG", N: 1}}, []world.Op{op("APP_ADD", "app2"), op("ASK", "b1")}, o("SCHEDULE")),
 		mkMaxApps("S15-maxapps-restart-vs-schedule"),
 		mkLifecycle("S16-completing-timer-vs-new-ask"),
 		mkUGMReload("S17-limits-reload-vs-schedule"),
@@ -339,6 +360,20 @@ func mkQuotaPreempt(name string) c14Scenario {
 	s := scnPreempt("c14-"+name, true)
 	s.Prefix = append(s.Prefix, world.Op{K: "CONFIG", N: 1}, op("ASK", "a1"))
 	return c14Scenario{Name: name, Scn: s, Threads: [][]world.Op{{op("QUOTA_PREEMPT")}, {op("SCHEDULE")}, {op("RELEASE", "b2")}}}
+}
+
+// a terminated application is cleaned up || the same application id is submitted again || REST reads
+func mkExpired(name string) c14Scenario {
+	s := scnLifecycleLate("c14-" + name)
+	s.Prefix = append(s.Prefix, op("RELEASE", "a1"), op("TIMER_STATE", "app1"), op("TIMER_STATE", "app1"))
+	return c14Scenario{Name: name, Scn: s, Threads: [][]world.Op{{op("CLEAN_EXPIRED")}, {op("APP_ADD", "app1")}, {op("REST")}}}
+}
+
+// Hard gang: placeholder timeout (the application fails) || a real ask arrives || scheduling cycle
+func mkHardGang(name string) c14Scenario {
+	s := scnGang("c14-"+name, "Hard")
+	s.Prefix = append(s.Prefix, op("SCHEDULE"), op("ASK", "p2"))
+	return c14Scenario{Name: name, Scn: s, Threads: [][]world.Op{{op("TIMER_PH", "gapp")}, {op("ASK", "r1")}, {op("SCHEDULE")}}}
 }
 
 // max applications: the scheduling cycle starts a waiting application || the Completing one is restarted by a new ask ||
